@@ -243,11 +243,13 @@ FRONT_TABLE = {
 }
 
 
-def check_front_axes(ctx, rep):
+def check_front_axes(ctx, rep, only=None):
     n = 0
     used = set()
     for mname, m in sorted(ctx.prog.modules.items()):
         if not any(mname.startswith(p) or mname == p.rstrip('.') for p in SCOPE_PACKAGES):
+            continue
+        if only is not None and not only(mname):
             continue
         fns = []
         for cname, cnode in m.classes.items():
@@ -310,6 +312,8 @@ def check_front_axes(ctx, rep):
     for mname, m in sorted(ctx.prog.modules.items()):
         if not any(mname.startswith(p) or mname == p.rstrip('.') for p in SCOPE_PACKAGES):
             continue
+        if only is not None and not only(mname):
+            continue
         for fn in ast.walk(m.tree):
             if not isinstance(fn, ast.FunctionDef) or fn.name in SKIP_METHODS:
                 continue
@@ -329,6 +333,8 @@ def check_front_axes(ctx, rep):
                             f"{scope}: `{txt[:70]}` exchanges axis {vals[0]} with axis {vals[1]} — one counted from the front, one from the end — on a value that can carry sample "
                             f"dimensions: which axis the front index hits depends on the number of sample dimensions; with [S, K] it is a sample axis and the samples are permuted")
     rep.analysed['axis_operations_with_constant_axis'] = n
+    if only is not None:
+        return n
     if n < 150:
         rep.incomplete('C10.P', '*', '', f"only {n} axis operations with a constant axis found")
     for qual, txt in sorted(set(FRONT_TABLE) - used):
